@@ -387,6 +387,8 @@ def equal_vals(a, b):
         if isinstance(a.data, tuple) and isinstance(b.data, tuple) and len(a.data) == len(b.data) == 2 and a.data[0] == b.data[0]:
             return a.data[1] == b.data[1]
         return z3.BoolVal(a.data is b.data or (isinstance(a.data, str) and a.data == b.data) or (a.data is None and b.data is None))
+    if isinstance(a, model.StrVal) and isinstance(b, model.StrVal):
+        return a.ident == b.ident
     if isinstance(a, model.Collected) and isinstance(b, model.Collected):
         return z3.And(equal_vals(a.sl, b.sl), z3.BoolVal(a.tyname == b.tyname))
     return z3.BoolVal(False)
@@ -835,7 +837,12 @@ LOOPED = [
     ("dynamic", False),
     ("section_headers_with_strtab", False),
     ("symbol_version_table", True),
+    ("section_header_by_name", False),
 ]
+
+
+def query_arg():
+    return [model.StrVal(z3.BitVec("query.name", 64))]
 
 
 def pair_compare(res, name, sp, bp, exact, proj_s=None, proj_b=None):
@@ -885,10 +892,11 @@ def lemma_L7(prog, res, classes=("ELF64",)):
         for cls in classes:
             for (ws, wp) in ((True, False), (False, True)) if method == "dynamic" else ((True, False),):
                 name = f"{method}[{cls},{'sections' if ws else 'segments only'}]"
+                xa = query_arg if method == "section_header_by_name" else None
                 try:
-                    sp, _, sst = run_file_method(prog, "stream", method, cls, ws, wp, scope=no_compressed_sections(cls))
-                    bp, _, bst = run_file_method(prog, "bytes", method, cls, ws, wp, scope=no_compressed_sections(cls))
-                    fp, fsol, fst = run_file_method(prog, "stream", method, cls, ws, wp, fault_free=False, tag="sf" + method[:5], scope=no_compressed_sections(cls))
+                    sp, _, sst = run_file_method(prog, "stream", method, cls, ws, wp, scope=no_compressed_sections(cls), extra_args=xa)
+                    bp, _, bst = run_file_method(prog, "bytes", method, cls, ws, wp, scope=no_compressed_sections(cls), extra_args=xa)
+                    fp, fsol, fst = run_file_method(prog, "stream", method, cls, ws, wp, fault_free=False, tag="sf" + method[:5], scope=no_compressed_sections(cls), extra_args=xa)
                 except sym.Unsupported as u:
                     res.add(f"L7.encode({name})", "inconclusive", str(u))
                     continue
@@ -1319,3 +1327,59 @@ def lemma_L6b(prog, res, cls="ELF64"):
             res.add(f"C20.common_data_members_are_the_designated_ranges({name})", "holds" if okv else "violated", model_str(mdl, 12), mdl)
             res.add(f"C20.common_data_finds_every_common_section({name})", "holds")
         res.add(f"L6b.witness.ok_paths({name})", "holds" if n_ok >= 1 else "inconclusive", f"{n_ok} Ok paths of {len(cp)}")
+
+
+def lemma_byname(prog, res, cls="ELF64"):
+    """section_header_by_name (slice parser): the first section (table order) whose name string - the terminated UTF-8 entry of the
+    section-name string table at sh_name - equals the query; None otherwise (C20)."""
+    name = f"section_header_by_name[{cls}]"
+    try:
+        bp, bsol, bst = run_file_method(prog, "bytes", "section_header_by_name", cls, True, False, tag="byn", extra_args=query_arg, k_sh=3)
+    except sym.Unsupported as u:
+        res.add(f"L8.encode({name})", "inconclusive", str(u))
+        return
+    res.stats["queries"] += bst["queries"]
+    res.stats["paths"] += bst["paths"]
+    solver = new_solver()
+    q = z3.BitVec("query.name", 64)
+    okf = model.F("strtab_entry_is_terminated_utf8", model.BV64, model.BV64, z3.BoolSort())
+    idf = model.F("strtab_entry_content", model.BV64, model.BV64, model.BV64)
+    counts = dict(some=0, none=0)
+    for p in bp:
+        if p["status"] != "ok":
+            res.add(f"C01.no_panic({name}, engine B)", "violated", p["status"])
+            continue
+        v = p["value"]
+        if not is_ok(v):
+            continue
+        st = p["env"]["tables"]
+        ehdr = p["env"]["obj"].f[0]
+        shstrndx = ehdr.f[16].e
+        n = z3.simplify(num_sections(cls, st)).as_long()
+        ts = [shdr_terms(cls, st, i) for i in range(n)]
+        idx = z3.If(shstrndx == 0xffff, z3.ZeroExt(32, ts[0]["sh_link"]), z3.ZeroExt(48, shstrndx))
+        # string table = range of section idx (one alternative per concrete l)
+        alts_some = []
+        alts_none = [shstrndx == 0]
+        for l in range(n):
+            so, ss = ts[l]["sh_offset"], ts[l]["sh_size"]
+            match = []
+            for j in range(n):
+                off = z3.ZeroExt(32, ts[j]["sh_name"])
+                m_j = z3.And(z3.ULT(off, ss), okf(so + off, so + ss), idf(so + off, so + ss) == q)
+                match.append(m_j)
+            for j in range(n):
+                first_j = z3.And(match[j], *[z3.Not(match[k]) for k in range(j)])
+                alts_some.append((z3.And(shstrndx != 0, idx == l, first_j), j))
+            alts_none.append(z3.And(shstrndx != 0, idx == l, *[z3.Not(m) for m in match]))
+        if v.f[0].variant == "Some":
+            counts["some"] += 1
+            sh = v.f[0].f[0]
+            claim = z3.Or([z3.And(c, equal_vals(sh, Agg([IntV(ts[j][f]) for (f, w) in model.SHDR_FIELDS], "SectionHeader"))) for (c, j) in alts_some])
+            okv, mdl = valid(res, solver, p["pc"], claim)
+            res.add(f"C20.by_name_returns_first_section_with_equal_name({name})", "holds" if okv else "violated", model_str(mdl, 16), mdl)
+        else:
+            counts["none"] += 1
+            okv, mdl = valid(res, solver, p["pc"], z3.Or(alts_none))
+            res.add(f"C20.by_name_none_iff_no_section_has_that_name({name})", "holds" if okv else "violated", model_str(mdl, 16), mdl)
+    res.add(f"L8.witness.paths({name})", "holds" if counts["some"] >= 2 and counts["none"] >= 2 else "inconclusive", str(counts))
